@@ -240,7 +240,22 @@ def run(ctx):
                 ob = dep.origins(rs, info["b"], at=K.at_term(rs, s))
                 if dep.has_call(oa, "subnetting::{impl#7}::id") and dep.has_call(ob, "subnetting::{impl#7}::id"):
                     guard = (s, info, oa, ob)
+        cguard = None
         if guard is None:
+            # the same test written as membership: !Ipv4Net::new(local, mask).contains(remote)
+            for s_ in rg.dom_chain(wbb) + [wbb]:
+                if rs.term(s_)[0] != "switch":
+                    continue
+                c = dep.switch_condition(rs, s_)
+                if c and c["kind"] == "call" and (F.callee_key(c["term"]) or "").endswith("subnetting::{impl#7}::contains"):
+                    a0 = dep.arg_origins(rs, c["call_bb"], 0)
+                    a1 = dep.arg_origins(rs, c["call_bb"], 1)
+                    tr, fl = dep.bool_branches(rs, s_)
+                    if dep.has_field(a0, "AddressPair", "local") and dep.has_field(a0, "SubnetInfo", "mask") and dep.has_field(a1, "AddressPair", "remote") and (fl == wbb or rg.dominates(fl, wbb)):
+                        cguard = s_
+        if guard is None and cguard is not None:
+            pass
+        elif guard is None:
             probs.append("the gateway substitution is not guarded by a comparison of the masked network ids")
         else:
             s, info, oa, ob = guard
@@ -252,6 +267,15 @@ def run(ctx):
                 probs.append("the compared ids are not those of endpoints.local and endpoints.remote")
             if not (dep.has_field(oa, "SubnetInfo", "mask") and dep.has_field(ob, "SubnetInfo", "mask")):
                 probs.append("the ids are not computed under the subnet's mask")
+    # whatever resolve() answers with Ok comes out of the table (learned from the owner's reply): never a constant
+    for bb, st in K.aggregates(rs, "core::result::Result", "Ok"):
+        ops = st[2][2]
+        if not ops:
+            continue
+        o = dep.origins(rs, ops[0], at=K.at_stmt(rs, bb, st))
+        named = [a[1].rsplit("::", 1)[-1] for a in o if a[0] == "named"]
+        if (named or dep.consts_of(o)) and not (dep.has_call(o, "get_mac") or dep.has_call(o, "get_clone")) and "Poll" not in rs.local_tystr(st[1][0]):
+            probs.append("resolve() can answer Ok(%s) without any table entry: that is no machine's hardware address (frames to it are flooded to every tap), and an unclaimed address then resolves at once instead of failing after the retries" % (named[0] if named else "a constant"))
     lk = [(bb, t) for bb, t in K.calls(rs) if (F.callee_key(t) or "").startswith("dashmap::") and (F.callee_key(t) or "").endswith("::get") and dep.has_field(dep.arg_origins(rs, bb, 0), "Arp", "local_ips")]
     if len(lk) != 1 or not dep.has_field(dep.arg_origins(rs, lk[0][0], 1, through_calls=False), "AddressPair", "local"):
         probs.append("the subnet configuration is not looked up under endpoints.local")
